@@ -143,7 +143,13 @@ def _desugar_for_each(caller, bi, by_path, collect_into_vec=False, try_mode=Fals
     if try_mode and not (not dest["p"] and locs[dest["l"]]["ty"].startswith("std::result::Result<")):
         return False
     blocks[bi]["stmts"].append({"k": "assign", "pl": {"l": l_it, "p": []}, "rv": {"k": "use", "ops": [copy.deepcopy(it_op)]}, "sp": sp, "inl": "for_each"})
-    if collect_into_vec:
+    into_existing = isinstance(collect_into_vec, dict)
+    if into_existing:
+        # `vec.extend(iter.map(f))`: the results are pushed into the vector the caller already has (operand: &mut Vec)
+        l_vref0, l_pu = newl("&mut std::vec::Vec<?>"), newl("()")
+        blocks[bi]["stmts"].append({"k": "assign", "pl": {"l": l_vref0, "p": []}, "rv": {"k": "use", "ops": [copy.deepcopy(collect_into_vec)]}, "sp": sp, "inl": "extend"})
+        blocks[bi]["term"] = {"k": "goto", "target": H, "sp": sp, "inl": "extend"}
+    elif collect_into_vec:
         vty = locs[dest["l"]]["ty"] if not dest["p"] else "std::vec::Vec<?>"
         l_vec, l_vref, l_pu = newl(vty, "collected"), newl("&mut " + vty), newl("()")
         V0 = nb + 6
@@ -174,7 +180,9 @@ def _desugar_for_each(caller, bi, by_path, collect_into_vec=False, try_mode=Fals
         l_env = newl(envty or "?")
         fake = {"k": "call", "args": [{"k": "move", "pl": {"l": l_env, "p": []}}, {"k": "move", "pl": {"l": l_elem, "p": []}}], "dest": {"l": l_unit, "p": []}, "target": after_f, "sp": sp}
         blocks.append({"stmts": [elem_stmt, {"k": "assign", "pl": {"l": l_env, "p": []}, "rv": env, "sp": sp}], "term": fake})
-    if collect_into_vec:
+    if isinstance(collect_into_vec, dict):
+        blocks.append({"stmts": [{"k": "assign", "pl": copy.deepcopy(dest), "rv": {"k": "agg", "ops": [], "agg": "tuple"}, "sp": sp}], "term": {"k": "goto", "target": target, "sp": sp}})
+    elif collect_into_vec:
         blocks.append({"stmts": [{"k": "assign", "pl": copy.deepcopy(dest), "rv": {"k": "use", "ops": [{"k": "move", "pl": {"l": l_vec, "p": []}}]}, "sp": sp}], "term": {"k": "goto", "target": target, "sp": sp}})
     elif try_mode:
         l_u = newl("()")
@@ -200,7 +208,14 @@ def _desugar_for_each(caller, bi, by_path, collect_into_vec=False, try_mode=Fals
                        "term": {"k": "call", "func": {"k": "const", "ty": "fn", "fn": "std::ops::FromResidual::from_residual", "fnargs": fr}, "args": [{"k": "move", "pl": {"l": l_rs, "p": []}}],
                                 "dest": copy.deepcopy(dest), "target": target, "fnsp": sp, "sp": sp, "callee": "std::ops::FromResidual::from_residual", "callee_args": fr, "targs": [],
                                 "trait": "std::ops::FromResidual", "exp": True}})
-    if collect_into_vec:
+    if isinstance(collect_into_vec, dict):
+        push = "std::vec::Vec::<?>::push"
+        l_rb = newl("&mut std::vec::Vec<?>")
+        blocks.append({"stmts": [{"k": "assign", "pl": {"l": l_rb, "p": []}, "rv": {"k": "ref", "bk": "mut", "pl": {"l": l_vref0, "p": [["deref"]]}}, "sp": sp}],
+                       "term": {"k": "call", "func": {"k": "const", "ty": "fn", "fn": "std::vec::Vec::<T>::push", "fnargs": push},
+                                "args": [{"k": "move", "pl": {"l": l_rb, "p": []}}, {"k": "move", "pl": {"l": l_unit, "p": []}}], "dest": {"l": l_pu, "p": []}, "target": H,
+                                "fnsp": sp, "sp": sp, "callee": "std::vec::Vec::<T>::push", "callee_args": push, "targs": [], "inl": "extend"}})
+    elif collect_into_vec:
         push = "std::vec::Vec::<?>::push"
         blocks.append({"stmts": [{"k": "assign", "pl": {"l": l_vref, "p": []}, "rv": {"k": "ref", "bk": "mut", "pl": {"l": l_vec, "p": []}}, "sp": sp}],
                        "term": {"k": "call", "func": {"k": "const", "ty": "fn", "fn": "std::vec::Vec::<T>::push", "fnargs": push},
@@ -305,6 +320,28 @@ def expand_body(facts, body, want, depth=3):
     return nb
 
 
+def _desugar_extend_map(caller, bi, by_path):
+    """`vec.extend(iter.map(f))` -> `for x in iter { vec.push(f(x)) }` (closure inlined)."""
+    blocks = caller["blocks"]
+    t = blocks[bi]["term"]
+    if len(t.get("args", [])) != 2 or t.get("target") is None:
+        return False
+    vec_op, a = t["args"]
+    if a.get("k") not in ("move", "copy") or a["pl"]["p"]:
+        return False
+    d = _single_def_call(caller, a["pl"]["l"])
+    if d is None or not (d[1].get("callee") or "").endswith("iter::Iterator::map") or len(d[1].get("args", [])) != 2 or d[1].get("target") is None:
+        return False
+    mbi, mt = d
+    it_op, f_op = copy.deepcopy(mt["args"][0]), copy.deepcopy(mt["args"][1])
+    cd = _closure_def(caller, f_op)
+    if cd is None or (cd[0] == "closure" and cd[1] not in by_path):
+        return False
+    blocks[mbi]["term"] = {"k": "goto", "target": mt["target"], "sp": mt.get("sp")}
+    t["args"] = [it_op, f_op]
+    return _desugar_for_each(caller, bi, by_path, collect_into_vec=copy.deepcopy(vec_op))
+
+
 def desugar_map_collect(facts, body):
     """On demand: a copy of `body` in which every `iter.map(f).collect::<Vec<_>>()` is an explicit push loop (see _desugar_map_collect).
     Not applied globally: the pinned tree itself uses this form and some rules are written against it."""
@@ -313,10 +350,15 @@ def desugar_map_collect(facts, body):
     closures = {b["path"]: b for b in facts.raw["bodies"] if "{closure" in b["path"]}
     n = 0
     for _ in range(MAX_DEPTH):
-        sites = [bi for bi, bb in enumerate(raw["blocks"]) if bb["term"].get("k") == "call" and not bb.get("cleanup") and (bb["term"].get("callee") or "").endswith("iter::Iterator::collect")]
+        sites = [bi for bi, bb in enumerate(raw["blocks"]) if bb["term"].get("k") == "call" and not bb.get("cleanup")
+                 and ((bb["term"].get("callee") or "").endswith("iter::Iterator::collect") or (bb["term"].get("callee") or "").endswith("::extend"))]
         k = 0
         for bi in sites:
-            if _desugar_map_collect(raw, bi, {p: copy.deepcopy(c) for p, c in closures.items()}):
+            cp = {p: copy.deepcopy(c) for p, c in closures.items()}
+            if (raw["blocks"][bi]["term"].get("callee") or "").endswith("::extend"):
+                if _desugar_extend_map(raw, bi, cp):
+                    k += 1
+            elif _desugar_map_collect(raw, bi, cp):
                 k += 1
         n += k
         if not k:
